@@ -1,10 +1,24 @@
 import P2sh.Model.MainLoop
+import P2sh.Spec.FilterSpec
 /-!
 # C20 — filter mode: the stream loop
 
 A model of `run_filters` with the filters abstracted by their meaning: filter `f` on packet
 number `np` (in state `σ`) yields a new state and whether the packet is selected
 (`Some true`), not (`Some false`), or fails (`None`: runtime error ⇒ the loop stops).
+
+* `selected_are_indices`, `end_np_is_count`, `selected_sorted` — the abstract loop;
+* `multiplicity` (+ `onPacket_answers`, `hitsPerPacket_numbers`, `hitsPerPacket_length`) — the output
+  is, packet by packet, the packet's number once per filter that answered `true` (consecutive copies);
+* `np_sequence` — the loop with every filter recording `(NP, its position)`: recording changes
+  nothing, and without failures the calls are packets in order × filters in source order, NP = index;
+* `stream_loop_refines` — the executable specification `FilterSpec.run` (the oracle of the
+  end-to-end engine) *is* this loop, instantiated with σ := reference state × unread input,
+  the packet-variable step `prep` (`set_curr_pkt` + `update_builtin_var`) followed by the
+  program's filters run by `FilterSpec.runFilter` in the environment of the non-filter statements;
+  the `end` filter runs once in the loop's final state with NP = number of packets;
+* for the specification: `order_preserved`, `selected_in_range`, `multiplicity_spec`,
+  `select_only_actionless`, `end_once`, `setVars_np`/`prep_np`.
 -/
 namespace P2sh.Props.C20
 
@@ -140,5 +154,612 @@ theorem selected_sorted {σ} (fs : List (Filter σ)) :
           have h1 := selected_are_indices fs [()] st count a (by simp only [streamLoop, hop]; simp [ha])
           have h2 := selected_are_indices fs rest st' (count + 1) b hb
           simp at h1; omega
+
+
+/-! ## the stream loop, unfolded; multiplicity; the call sequence -/
+
+def pstep {σ} (np : Nat) (acc : σ × Option (List Nat)) (f : Filter σ) : σ × Option (List Nat) :=
+  match acc with
+  | (s, none) => (s, none)
+  | (s, some sel) =>
+    match f.run s np with
+    | (s', some true) => (s', some (sel ++ [np]))
+    | (s', some false) => (s', some sel)
+    | (s', none) => (s', none)
+
+theorem onPacket_eq {σ} (fs : List (Filter σ)) (st : σ) (np : Nat) :
+    onPacket fs st np = fs.foldl (pstep np) (st, some []) := rfl
+
+theorem foldl_pstep_none {σ} (np : Nat) (fs : List (Filter σ)) (s : σ) :
+    fs.foldl (pstep np) (s, none) = (s, none) := by
+  induction fs with
+  | nil => rfl
+  | cons f fs ih => exact ih
+
+/-- the answers of the filters on one packet, in source order, up to and including the first
+failure (`none`) -/
+def answers {σ} : List (Filter σ) → σ → Nat → List (Option Bool)
+  | [], _, _ => []
+  | f :: fs, st, np =>
+    match f.run st np with
+    | (_, none) => [none]
+    | (s', some b) => some b :: answers fs s' np
+
+theorem foldl_pstep_answers {σ} (np : Nat) :
+    ∀ (fs : List (Filter σ)) (st : σ) (sel : List Nat),
+      (fs.foldl (pstep np) (st, some sel)).2 =
+        if none ∈ answers fs st np then none
+        else some (sel ++ List.replicate ((answers fs st np).count (some true)) np) := by
+  intro fs
+  induction fs with
+  | nil => intro st sel; simp [answers]
+  | cons f fs ih =>
+    intro st sel
+    rw [List.foldl_cons]
+    cases hr : f.run st np with
+    | mk s' r =>
+      cases r with
+      | none =>
+        have : pstep np (st, some sel) f = (s', none) := by simp only [pstep, hr]
+        rw [this, foldl_pstep_none]
+        simp [answers, hr]
+      | some b =>
+        cases b with
+        | true =>
+          have : pstep np (st, some sel) f = (s', some (sel ++ [np])) := by simp only [pstep, hr]
+          rw [this, ih]
+          simp only [answers, hr, List.mem_cons, reduceCtorEq, false_or, List.count_cons_self]
+          split
+          · rfl
+          · simp [List.replicate_succ]
+        | false =>
+          have : pstep np (st, some sel) f = (s', some sel) := by simp only [pstep, hr]
+          rw [this, ih]
+          simp [answers, hr]
+
+/-- **multiplicity, one packet**: when no filter fails the packet is selected once per filter
+that answers `true` -/
+theorem onPacket_answers {σ} (fs : List (Filter σ)) (st : σ) (np : Nat) :
+    (onPacket fs st np).2 =
+      if none ∈ answers fs st np then none
+      else some (List.replicate ((answers fs st np).count (some true)) np) := by
+  rw [onPacket_eq, foldl_pstep_answers]
+  simp
+
+
+/-- per packet read without failure, in order: its number and how many filters answered `true` -/
+def hitsPerPacket {σ} (fs : List (Filter σ)) : σ → Nat → List Unit → List (Nat × Nat)
+  | _, _, [] => []
+  | st, count, _ :: rest =>
+    match onPacket fs st count with
+    | (st', some _) =>
+      (count, (answers fs st count).count (some true)) :: hitsPerPacket fs st' (count + 1) rest
+    | (_, none) => []
+
+/-- **multiplicity**: the output is, packet by packet in input order, the packet's number
+repeated once per filter that answered `true` on it — so the copies of one packet are consecutive -/
+theorem multiplicity {σ} (fs : List (Filter σ)) :
+    ∀ (pkts : List Unit) (st : σ) (count : Nat),
+      (streamLoop fs st count pkts).2.1 =
+        (hitsPerPacket fs st count pkts).flatMap (fun ik => List.replicate ik.2 ik.1) := by
+  intro pkts
+  induction pkts with
+  | nil => intro st count; rfl
+  | cons u rest ih =>
+    intro st count
+    have ha := onPacket_answers fs st count
+    cases hop : onPacket fs st count with
+    | mk st' o =>
+      cases o with
+      | none => simp only [streamLoop, hitsPerPacket, hop]; rfl
+      | some sel =>
+        rw [hop] at ha
+        simp only at ha
+        split at ha
+        · cases ha
+        · simp only [Option.some.injEq] at ha
+          simp only [streamLoop, hitsPerPacket, hop, List.flatMap_cons, ih, ha]
+
+/-- the packets of `hitsPerPacket` are numbered consecutively from `count` -/
+theorem hitsPerPacket_numbers {σ} (fs : List (Filter σ)) :
+    ∀ (pkts : List Unit) (st : σ) (count : Nat),
+      (hitsPerPacket fs st count pkts).map Prod.fst =
+        List.range' count (hitsPerPacket fs st count pkts).length := by
+  intro pkts
+  induction pkts with
+  | nil => intro st count; rfl
+  | cons u rest ih =>
+    intro st count
+    cases hop : onPacket fs st count with
+    | mk st' o =>
+      cases o with
+      | none => simp only [hitsPerPacket, hop]; rfl
+      | some sel =>
+        simp only [hitsPerPacket, hop, List.map_cons, List.length_cons, ih, List.range'_succ]
+
+/-- … and all packets are there when no filter fails -/
+theorem hitsPerPacket_length {σ} (fs : List (Filter σ))
+    (hok : ∀ s np, ∃ s' b, (onPacket fs s np) = (s', some b)) :
+    ∀ (pkts : List Unit) (st : σ) (count : Nat),
+      (hitsPerPacket fs st count pkts).length = pkts.length := by
+  intro pkts
+  induction pkts with
+  | nil => intro st count; rfl
+  | cons u rest ih =>
+    intro st count
+    obtain ⟨s', b, h⟩ := hok st count
+    simp only [hitsPerPacket, h, List.length_cons, ih]
+
+
+/-! ## which filter runs with which NP: the loop with a call log -/
+
+/-- the filters numbered from `j`, each recording `(NP, its number)` when it is run -/
+def logged {σ} (j : Nat) (f : Filter σ) : Filter (σ × List (Nat × Nat)) :=
+  ⟨fun s np => (((f.run s.1 np).1, s.2 ++ [(np, j)]), (f.run s.1 np).2)⟩
+
+def instr {σ} : Nat → List (Filter σ) → List (Filter (σ × List (Nat × Nat)))
+  | _, [] => []
+  | j, f :: fs => logged j f :: instr (j + 1) fs
+
+theorem foldl_instr {σ} (np : Nat) :
+    ∀ (fs : List (Filter σ)) (j : Nat) (st : σ) (log : List (Nat × Nat)) (sel : List Nat),
+      ∃ m, m ≤ fs.length ∧
+        (instr j fs).foldl (pstep np) ((st, log), some sel) =
+          (((fs.foldl (pstep np) (st, some sel)).1,
+            log ++ (List.range' j m).map (fun k => (np, k))),
+           (fs.foldl (pstep np) (st, some sel)).2) ∧
+        ((fs.foldl (pstep np) (st, some sel)).2 ≠ none → m = fs.length) := by
+  intro fs
+  induction fs with
+  | nil => intro j st log sel; exact ⟨0, Nat.le_refl _, by simp [instr], fun _ => rfl⟩
+  | cons f fs ih =>
+    intro j st log sel
+    cases hr : f.run st np with
+    | mk s' r =>
+      cases r with
+      | none =>
+        refine ⟨1, by simp, ?_, ?_⟩
+        · have h1 : pstep np (st, some sel) f = (s', none) := by simp only [pstep, hr]
+          have h2 : pstep np ((st, log), some sel) (logged j f) =
+              ((s', log ++ [(np, j)]), none) := by simp [logged, pstep, hr]
+          simp only [instr, List.foldl_cons]
+          rw [h1, h2, foldl_pstep_none, foldl_pstep_none]
+          simp
+        · intro hne
+          have h1 : pstep np (st, some sel) f = (s', none) := by simp only [pstep, hr]
+          rw [List.foldl_cons, h1, foldl_pstep_none] at hne
+          exact absurd rfl hne
+      | some b =>
+        have h1 : pstep np (st, some sel) f = (s', some (if b then sel ++ [np] else sel)) := by
+          cases b <;> simp only [pstep, hr] <;> rfl
+        have h2 : pstep np ((st, log), some sel) (logged j f) =
+            ((s', log ++ [(np, j)]), some (if b then sel ++ [np] else sel)) := by
+          cases b <;> simp [logged, pstep, hr]
+        obtain ⟨m, hm, he, hfull⟩ := ih (j + 1) s' (log ++ [(np, j)]) (if b then sel ++ [np] else sel)
+        refine ⟨m + 1, by simp; omega, ?_, ?_⟩
+        · simp only [instr, List.foldl_cons]
+          rw [h1, h2, he]
+          simp [List.range'_succ]
+        · intro hne
+          rw [List.foldl_cons, h1] at hne
+          simp [hfull hne]
+
+
+theorem streamLoop_cons_ok {σ} (fs : List (Filter σ)) (st st' : σ) (count : Nat) (sel : List Nat)
+    (rest : List Unit) (u : Unit) (h : onPacket fs st count = (st', some sel)) :
+    streamLoop fs st count (u :: rest) =
+      ((streamLoop fs st' (count + 1) rest).1, sel ++ (streamLoop fs st' (count + 1) rest).2.1,
+       (streamLoop fs st' (count + 1) rest).2.2) := by
+  simp only [streamLoop, h]
+
+theorem streamLoop_cons_fail {σ} (fs : List (Filter σ)) (st st' : σ) (count : Nat)
+    (rest : List Unit) (u : Unit) (h : onPacket fs st count = (st', none)) :
+    streamLoop fs st count (u :: rest) = (st', [], count) := by
+  simp only [streamLoop, h]
+
+/-- **np_sequence**: recording the calls changes nothing (first part), and when no filter fails
+the calls are: for each packet `i` in order, filters `0 … n-1` in source order, each with NP = `i` -/
+theorem np_sequence {σ} (fs : List (Filter σ)) :
+    ∀ (pkts : List Unit) (st : σ) (log : List (Nat × Nat)) (count : Nat),
+      ∃ calls,
+        streamLoop (instr 0 fs) (st, log) count pkts =
+          (((streamLoop fs st count pkts).1, log ++ calls),
+           (streamLoop fs st count pkts).2.1, (streamLoop fs st count pkts).2.2) ∧
+        ((∀ s np, ∃ s' b, (onPacket fs s np) = (s', some b)) →
+          calls = (List.range' count pkts.length).flatMap
+            (fun i => (List.range' 0 fs.length).map (fun j => (i, j)))) := by
+  intro pkts
+  induction pkts with
+  | nil => intro st log count; exact ⟨[], by simp [streamLoop], fun _ => rfl⟩
+  | cons u rest ih =>
+    intro st log count
+    obtain ⟨m, hm, he, hfull⟩ := foldl_instr count fs 0 st log []
+    simp only [← onPacket_eq] at he hfull
+    cases hop : onPacket fs st count with
+    | mk st' o =>
+      rw [hop] at he hfull
+      cases o with
+      | none =>
+        refine ⟨(List.range' 0 m).map (fun k => (count, k)), ?_, ?_⟩
+        · rw [streamLoop_cons_fail _ _ _ _ _ _ he, streamLoop_cons_fail _ _ _ _ _ _ hop]
+        · intro hok
+          obtain ⟨s', b, h⟩ := hok st count
+          rw [h] at hop; cases hop
+      | some sel =>
+        have hmf := hfull (by simp)
+        subst hmf
+        obtain ⟨calls, hc, hcf⟩ := ih st' (log ++ (List.range' 0 fs.length).map (fun k => (count, k))) (count + 1)
+        refine ⟨(List.range' 0 fs.length).map (fun k => (count, k)) ++ calls, ?_, ?_⟩
+        · rw [streamLoop_cons_ok _ _ _ _ _ _ _ he, streamLoop_cons_ok _ _ _ _ _ _ _ hop, hc]
+          simp
+        · intro hok
+          rw [hcf hok]
+          simp [List.range'_succ]
+
+
+/-! ## the specification is the stream loop -/
+open P2sh P2sh.Ref P2sh.FilterSpec
+
+
+theorem streamLoop_nil {σ} (fs : List (Filter σ)) (st : σ) (count : Nat) :
+    streamLoop fs st count [] = (st, [], count - 1) := rfl
+
+/-! ## the specification's filters as filters of the stream loop -/
+
+/-- the state of the loop: the reference-semantics state and the unread input -/
+abbrev LoopSt := St × List Pkt
+
+/-- reading the next packet and setting NP, PL, WL, TSS, TSU (`set_curr_pkt`, `update_builtin_var`):
+the step before the filters; it selects nothing; with no input left the loop stops -/
+def prep : Filter LoopSt :=
+  ⟨fun s np => match s.2 with
+    | pk :: rest => ((setVars s.1 (.int (Int64.ofNat np)) (some pk), rest), some false)
+    | [] => (s, none)⟩
+
+/-- a filter of the program, run by the specification's `runFilter` in the environment the
+non-filter statements left -/
+def filterOf (env : Env) (f : FPat × Option Block) : Filter LoopSt :=
+  ⟨fun s _ => (((runFilter env s.1 f.1 f.2).2, s.2), (runFilter env s.1 f.1 f.2).1)⟩
+
+def plainOf (p : Program) : List Stmt :=
+  p.stmts.filter fun s => match s with | .filter .. => false | _ => true
+
+def filterList (p : Program) : List (FPat × Option Block) :=
+  p.stmts.filterMap fun s => match s with
+    | .filter _ pat act => (match pat with | .fend => none | _ => some (pat, act))
+    | _ => none
+
+def endsOf (p : Program) : List (Option Block) :=
+  p.stmts.filterMap fun s => match s with
+    | .filter _ .fend act => some act
+    | _ => none
+
+def filtersOf (env : Env) (p : Program) : List (Filter LoopSt) :=
+  prep :: (filterList p).map (filterOf env)
+
+/-- the non-filter statements, once: the environment and state the stream loop starts from -/
+def initOf (p : Program) : Option (Env × St) :=
+  match (evalStmts fuel [[]] (plainOf p) .null).run.run {} with
+  | (.ok (.normal, _, env), st0) => some (env, st0)
+  | _ => none
+
+/-- the specification's inner loop is the fold of `onPacket` over the program's filters -/
+theorem each_fold (env : Env) (idx : Nat) (input : List Pkt) :
+    ∀ (fs : List (FPat × Option Block)) (st : St) (sel acc : List Nat) (st' : St) (sel' : List Nat),
+      FilterSpec.run.loop.each env idx fs st sel = some (st', sel') →
+      ∃ new, sel' = sel ++ new ∧
+        (fs.map (filterOf env)).foldl (pstep idx) ((st, input), some acc)
+          = ((st', input), some (acc ++ new)) := by
+  intro fs
+  induction fs with
+  | nil =>
+    intro st sel acc st' sel' h
+    simp only [FilterSpec.run.loop.each, Option.some.injEq, Prod.mk.injEq] at h
+    obtain ⟨rfl, rfl⟩ := h
+    exact ⟨[], by simp, by simp⟩
+  | cons f more ih =>
+    intro st sel acc st' sel' h
+    obtain ⟨pat, act⟩ := f
+    rw [FilterSpec.run.loop.each] at h
+    cases hr : runFilter env st pat act with
+    | mk r st1 =>
+      rw [hr] at h
+      have hstep : ∀ b, r = some b → pstep idx ((st, input), some acc) (filterOf env (pat, act)) =
+          ((st1, input), some (if b then acc ++ [idx] else acc)) := by
+        intro b hb
+        subst hb
+        simp only [pstep, filterOf, hr]
+        cases b <;> rfl
+      cases r with
+      | none => simp at h
+      | some b =>
+        cases b with
+        | true =>
+          simp only at h
+          obtain ⟨new, h1, h2⟩ := ih st1 (sel ++ [idx]) (acc ++ [idx]) st' sel' h
+          refine ⟨idx :: new, by simp [h1], ?_⟩
+          rw [List.map_cons, List.foldl_cons, hstep true rfl, if_pos rfl, h2]
+          simp
+        | false =>
+          simp only at h
+          obtain ⟨new, h1, h2⟩ := ih st1 sel acc st' sel' h
+          refine ⟨new, h1, ?_⟩
+          rw [List.map_cons, List.foldl_cons, hstep false rfl, if_neg (by decide), h2]
+
+
+theorem onPacket_spec (env : Env) (fs : List (FPat × Option Block)) (idx : Nat) (st : St) (pk : Pkt)
+    (rest : List Pkt) (sel : List Nat) (st' : St) (sel' : List Nat)
+    (h : FilterSpec.run.loop.each env idx fs (setVars st (.int (Int64.ofNat idx)) (some pk)) sel
+      = some (st', sel')) :
+    ∃ new, sel' = sel ++ new ∧
+      onPacket (prep :: fs.map (filterOf env)) (st, pk :: rest) idx = ((st', rest), some new) := by
+  obtain ⟨new, h1, h2⟩ := each_fold env idx rest fs _ sel [] st' sel' h
+  refine ⟨new, h1, ?_⟩
+  rw [onPacket_eq, List.foldl_cons]
+  have : pstep idx ((st, pk :: rest), some []) prep =
+      ((setVars st (.int (Int64.ofNat idx)) (some pk), rest), some []) := rfl
+  rw [this, h2]
+  simp
+
+/-- the specification's outer loop is `streamLoop` -/
+theorem loop_streamLoop (env : Env) (fs : List (FPat × Option Block)) :
+    ∀ (pkts : List Pkt) (idx : Nat) (st : St) (sel : List Nat) (st1 : St) (selF : List Nat),
+      FilterSpec.run.loop fs env pkts idx st sel = some (st1, selF) →
+      selF = sel ++ (streamLoop (prep :: fs.map (filterOf env)) (st, pkts) idx (pkts.map fun _ => ())).2.1 ∧
+      (streamLoop (prep :: fs.map (filterOf env)) (st, pkts) idx (pkts.map fun _ => ())).1 = (st1, []) ∧
+      (streamLoop (prep :: fs.map (filterOf env)) (st, pkts) idx (pkts.map fun _ => ())).2.2
+        = idx + pkts.length - 1 ∧
+      (hitsPerPacket (prep :: fs.map (filterOf env)) (st, pkts) idx (pkts.map fun _ => ())).length
+        = pkts.length := by
+  intro pkts
+  induction pkts with
+  | nil =>
+    intro idx st sel st1 selF h
+    simp only [FilterSpec.run.loop, Option.some.injEq, Prod.mk.injEq] at h
+    obtain ⟨rfl, rfl⟩ := h
+    simp [streamLoop_nil, hitsPerPacket]
+  | cons pk rest ih =>
+    intro idx st sel st1 selF h
+    rw [FilterSpec.run.loop] at h
+    cases he : FilterSpec.run.loop.each env idx fs (setVars st (.int (Int64.ofNat idx)) (some pk)) sel with
+    | none => rw [he] at h; simp at h
+    | some r =>
+      obtain ⟨st', sel'⟩ := r
+      rw [he] at h
+      simp only [] at h
+      obtain ⟨new, h1, h2⟩ := onPacket_spec env fs idx st pk rest sel st' sel' he
+      obtain ⟨i1, i2, i3, i4⟩ := ih (idx + 1) st' sel' st1 selF h
+      rw [List.map_cons, streamLoop_cons_ok _ _ _ _ _ _ _ h2]
+      refine ⟨?_, i2, ?_, ?_⟩
+      · rw [i1, h1, List.append_assoc]
+      · simp only [i3, List.length_cons]; omega
+      · simp only [hitsPerPacket, h2, List.length_cons, i4]
+
+
+/-- the `.ok` outcomes of the specification, taken apart: the non-filter statements ran, its
+loop returned, and the `end` filters are none (then nothing more runs) or one (which runs once) -/
+theorem run_ok (p : Program) (pkts : List Pkt) (sel : List Nat) (out : List String)
+    (e : Bool) (h : FilterSpec.run p pkts = .ok sel out e) :
+    ∃ env st0 st1, initOf p = some (env, st0) ∧
+      FilterSpec.run.loop (filterList p) env pkts 1 st0 [] = some (st1, sel) ∧
+      (match endsOf p with
+       | [] => e = false ∧ out = st1.out.reverse
+       | [act] => e = true ∧ ∃ b st2,
+           runFilter env (setVars st1 (.int (Int64.ofNat pkts.length)) none) .fend act = (some b, st2) ∧
+           out = st2.out.reverse
+       | _ => False) := by
+  unfold FilterSpec.run at h
+  split at h
+  · cases h
+  · simp only [] at h
+    split at h
+    · rename_i x env st0 hinit
+      have hi : initOf p = some (env, st0) := by
+        have h' : (evalStmts fuel [[]] (plainOf p) .null).run.run {} = (.ok (.normal, x, env), st0) := hinit
+        unfold initOf
+        rw [h']
+      split at h
+      · cases h
+      · rename_i st1 sel' hloop
+        have hends : ∀ (es : List (Option Block)),
+            (match es with
+            | [] => Outcome.ok sel' st1.out.reverse false
+            | [act] =>
+              match runFilter env (setVars st1 (Val.int (Int64.ofNat pkts.length)) none) FPat.fend act with
+              | (some _, st2) => Outcome.ok sel' st2.out.reverse true
+              | (none, _) => Outcome.unc
+            | _ => Outcome.unc) = Outcome.ok sel out e →
+            sel' = sel ∧
+            (match es with
+             | [] => e = false ∧ out = st1.out.reverse
+             | [act] => e = true ∧ ∃ b st2,
+                 runFilter env (setVars st1 (.int (Int64.ofNat pkts.length)) none) .fend act = (some b, st2) ∧
+                 out = st2.out.reverse
+             | _ => False) := by
+          intro es hm
+          match es, hm with
+          | [], hm =>
+            simp only [Outcome.ok.injEq] at hm
+            exact ⟨hm.1, hm.2.2.symm, hm.2.1.symm⟩
+          | [act], hm =>
+            simp only [] at hm
+            split at hm
+            · rename_i b st2 hrun
+              simp only [Outcome.ok.injEq] at hm
+              exact ⟨hm.1, hm.2.2.symm, b, st2, hrun, hm.2.1.symm⟩
+            · cases hm
+          | _ :: _ :: _, hm => cases hm
+        obtain ⟨e1, e2⟩ := hends (endsOf p) h
+        subst e1
+        exact ⟨env, st0, st1, hi, hloop, e2⟩
+    · cases h
+
+/-- **stream_loop_refines**: where the specification fixes the outcome, it is the stream loop
+over the program's filters (after the packet-variable step `prep`), started in the state the
+non-filter statements left, with the packets numbered from 1: the selection is the loop's, all
+input is consumed, the NP left for `end` is the number of packets, and `end` — if there is
+one — runs exactly once, in the loop's final state with NP = that number -/
+theorem stream_loop_refines (p : Program) (pkts : List Pkt) (sel : List Nat) (out : List String)
+    (e : Bool) (h : FilterSpec.run p pkts = .ok sel out e) :
+    ∃ env st0, initOf p = some (env, st0) ∧
+      let r := streamLoop (filtersOf env p) (st0, pkts) 1 (pkts.map fun _ => ())
+      sel = r.2.1 ∧ r.1.2 = [] ∧ r.2.2 = pkts.length ∧
+      (match endsOf p with
+       | [] => e = false ∧ out = r.1.1.out.reverse
+       | [act] => e = true ∧ ∃ b st2,
+           runFilter env (setVars r.1.1 (.int (Int64.ofNat r.2.2)) none) .fend act = (some b, st2) ∧
+           out = st2.out.reverse
+       | _ => False) := by
+  obtain ⟨env, st0, st1, hi, hloop, hend⟩ := run_ok p pkts sel out e h
+  refine ⟨env, st0, hi, ?_⟩
+  obtain ⟨l1, l2, l3, _⟩ := loop_streamLoop env (filterList p) pkts 1 st0 [] st1 sel hloop
+  have l3' : (streamLoop (filtersOf env p) (st0, pkts) 1 (pkts.map fun _ => ())).2.2 = pkts.length := by
+    rw [filtersOf, l3]; omega
+  have l2' : (streamLoop (filtersOf env p) (st0, pkts) 1 (pkts.map fun _ => ())).1 = (st1, []) := l2
+  simp only [List.nil_append] at l1
+  show _ ∧ _ ∧ _ ∧ _
+  rw [l3', l2']
+  exact ⟨l1, rfl, rfl, hend⟩
+
+/-! ## what the property names, for the specification -/
+
+/-- **order_preserved**: packets are written in input order -/
+theorem order_preserved (p : Program) (pkts : List Pkt) (sel : List Nat) (out : List String)
+    (e : Bool) (h : FilterSpec.run p pkts = .ok sel out e) : sel.Pairwise (· ≤ ·) := by
+  obtain ⟨env, st0, _, hr⟩ := stream_loop_refines p pkts sel out e h
+  rw [hr.1]
+  exact selected_sorted _ _ _ _
+
+/-- every selected number is the 1-based index of a packet of the input -/
+theorem selected_in_range (p : Program) (pkts : List Pkt) (sel : List Nat) (out : List String)
+    (e : Bool) (h : FilterSpec.run p pkts = .ok sel out e) : ∀ n ∈ sel, 1 ≤ n ∧ n ≤ pkts.length := by
+  obtain ⟨env, st0, _, hr⟩ := stream_loop_refines p pkts sel out e h
+  intro n hn
+  rw [hr.1] at hn
+  have := selected_are_indices _ _ _ _ n hn
+  simp only [List.length_map] at this
+  omega
+
+/-- only a filter without action can select: `runFilter` answers `true` for those alone -/
+theorem select_only_actionless (env : Env) (st : St) (pat : FPat) (act : Option Block)
+    (h : (runFilter env st pat act).1 = some true) : act = none := by
+  cases act with
+  | none => rfl
+  | some b =>
+    exfalso
+    unfold runFilter at h
+    simp only [] at h
+    repeat' split at h
+    all_goals first | cases h | skip
+
+/-- **multiplicity** for the specification: the selection is, for packets 1, 2, …, n in order,
+the packet's number repeated once per filter that answered `true` on it (`k i` times, consecutively);
+those filters are action-less (`select_only_actionless`) -/
+theorem multiplicity_spec (p : Program) (pkts : List Pkt) (sel : List Nat) (out : List String)
+    (e : Bool) (h : FilterSpec.run p pkts = .ok sel out e) :
+    ∃ k : List Nat, k.length = pkts.length ∧
+      sel = ((List.range' 1 pkts.length).zip k).flatMap (fun ik => List.replicate ik.2 ik.1) := by
+  obtain ⟨env, st0, st1, hi, hloop, hend⟩ := run_ok p pkts sel out e h
+  obtain ⟨l1, _, _, l4⟩ := loop_streamLoop env (filterList p) pkts 1 st0 [] st1 sel hloop
+  simp only [List.nil_append] at l1
+  have hm := multiplicity (prep :: (filterList p).map (filterOf env)) (pkts.map fun _ => ()) (st0, pkts) 1
+  have hn := hitsPerPacket_numbers (prep :: (filterList p).map (filterOf env)) (pkts.map fun _ => ()) (st0, pkts) 1
+  generalize hitsPerPacket (prep :: (filterList p).map (filterOf env)) (st0, pkts) 1 (pkts.map fun _ => ()) = hp at *
+  refine ⟨hp.map Prod.snd, by simp [l4], ?_⟩
+  rw [l1, hm]
+  congr 1
+  rw [l4] at hn
+  exact List.zip_of_prod hn rfl
+
+/-- **end_once**: the `end` filter runs exactly once if the program has one (and then in the state
+the stream left, with NP = the number of packets read — `stream_loop_refines`), never otherwise;
+a program with two `end` filters is outside the specification -/
+theorem end_once (p : Program) (pkts : List Pkt) (sel : List Nat) (out : List String)
+    (e : Bool) (h : FilterSpec.run p pkts = .ok sel out e) :
+    (e = false ∧ endsOf p = []) ∨
+    (e = true ∧ ∃ act env st1 b st2, endsOf p = [act] ∧
+      runFilter env (setVars st1 (.int (Int64.ofNat pkts.length)) none) .fend act = (some b, st2) ∧
+      out = st2.out.reverse) := by
+  obtain ⟨env, st0, st1, _, _, hend⟩ := run_ok p pkts sel out e h
+  match hes : endsOf p, hend with
+  | [], hend => exact Or.inl ⟨hend.1, rfl⟩
+  | [act], hend =>
+    obtain ⟨he, b, st2, hr, ho⟩ := hend
+    exact Or.inr ⟨he, act, env, st1, b, st2, rfl, hr, ho⟩
+  | _ :: _ :: _, hend => exact hend.elim
+
+/-- the packet-variable step makes NP the packet's number, and `end` sees the number it is given -/
+theorem setVars_np (st : St) (np : Val) (pk : Option Pkt) :
+    (setVars st np pk).bvars.lookup "NP" = some np := by
+  cases pk <;> rfl
+
+theorem prep_np (st : St) (pk : Pkt) (rest : List Pkt) (np : Nat) :
+    (prep.run (st, pk :: rest) np).1.1.bvars.lookup "NP" = some (.int (Int64.ofNat np)) ∧
+    (prep.run (st, pk :: rest) np).1.2 = rest ∧ (prep.run (st, pk :: rest) np).2 = some false :=
+  ⟨setVars_np _ _ _, rfl, rfl⟩
+
+/-! ## non-vacuity -/
+
+section Examples
+
+/-- toy filters over a call counter: `always` selects every packet, `second` only packet 2,
+`failAt3` fails on packet 3 -/
+def always : Filter Nat := ⟨fun s _ => (s + 1, some true)⟩
+def second : Filter Nat := ⟨fun s np => (s + 1, some (np == 2))⟩
+def failAt3 : Filter Nat := ⟨fun s np => (s + 1, if np == 3 then none else some false)⟩
+
+-- 3 packets × 2 filters: packet 2 is written twice, consecutively; `end` would see NP = 3; 6 calls
+example : streamLoop [always, second] 0 1 [(), (), ()] = (6, [1, 2, 2, 3], 3) := by decide
+example : answers [always, second] 2 2 = [some true, some true] := by decide
+example : hitsPerPacket [always, second] 0 1 [(), (), ()] = [(1, 1), (2, 2), (3, 1)] := by decide
+-- the call sequence: (NP, filter) in packet order, then source order
+example : (streamLoop (instr 0 [always, second]) (0, []) 1 [(), (), ()]).1.2
+    = [(1, 0), (1, 1), (2, 0), (2, 1), (3, 0), (3, 1)] := by decide
+-- a failing filter stops the stream: packet 3's filters after the failure do not run (the model
+-- also drops what packet 3's earlier filters selected; the specification is `unc` on failures)
+example : streamLoop [always, failAt3, second] 0 1 [(), (), (), ()] = (8, [1, 2, 2], 3) := by decide
+example : (streamLoop (instr 0 [always, failAt3, second]) (0, []) 1 [(), (), (), ()]).1.2
+    = [(1, 0), (1, 1), (1, 2), (2, 0), (2, 1), (2, 2), (3, 0), (3, 1)] := by decide
+
+deriving instance DecidableEq for FilterSpec.Outcome
+
+def exPkts : List Pkt := [⟨0, 0, 60, 60⟩, ⟨1, 0, 60, 60⟩, ⟨2, 0, 42, 42⟩]
+def putsS (l : Nat) (s : String) : Stmt := .exprS l (.call l (.ident l "puts" .get) [.str l s])
+/-- `let n = 0; true; NP == 2; PL > 50 { n = n + 1 }; end { if NP == 3 {puts(…)} if n == 2 {puts(…)} }` -/
+def exProg : Program := ⟨[
+  .letS 1 0 "n" (.int 1 0),
+  .filter 2 (.expr (.bool 2 true)) none,
+  .filter 3 (.expr (.binary 3 "==" (.ident 3 "NP" .get) (.int 3 2))) none,
+  .filter 4 (.expr (.binary 4 ">" (.ident 4 "PL" .get) (.int 4 50)))
+    (some (.mk 4 [.exprS 4 (.assign 4 (.ident 4 "n" .set) (.binary 4 "+" (.ident 4 "n" .get) (.int 4 1)))])),
+  .filter 5 .fend (some (.mk 5 [
+    .exprS 5 (.ifE 5 (.binary 5 "==" (.ident 5 "NP" .get) (.int 5 3)) (.mk 5 [putsS 5 "NP is 3"]) .none),
+    .exprS 6 (.ifE 6 (.binary 6 "==" (.ident 6 "n" .get) (.int 6 2)) (.mk 6 [putsS 6 "two big packets"]) .none)]))]⟩
+
+/-- the specification on 3 packets × 3 filters + `end`: packet 2 twice, the action filter selects
+nothing but counts the two 60-byte packets, `end` runs once with NP = 3 -/
+theorem exRun : FilterSpec.run exProg exPkts = .ok [1, 2, 2, 3] ["NP is 3", "two big packets"] true := by
+  decide +kernel
+
+example : filterList exProg = [(.expr (.bool 2 true), none),
+    (.expr (.binary 3 "==" (.ident 3 "NP" .get) (.int 3 2)), none),
+    (.expr (.binary 4 ">" (.ident 4 "PL" .get) (.int 4 50)),
+      some (.mk 4 [.exprS 4 (.assign 4 (.ident 4 "n" .set) (.binary 4 "+" (.ident 4 "n" .get) (.int 4 1)))]))] := rfl
+example : (endsOf exProg).length = 1 := rfl
+
+-- the theorems apply to it (their hypothesis is satisfiable)
+example : ∃ env st0, initOf exProg = some (env, st0) ∧
+    [1, 2, 2, 3] = (streamLoop (filtersOf env exProg) (st0, exPkts) 1 [(), (), ()]).2.1 := by
+  obtain ⟨env, st0, h0, h1, _⟩ := stream_loop_refines _ _ _ _ _ exRun
+  exact ⟨env, st0, h0, h1⟩
+example : ∃ k : List Nat, k.length = 3 ∧
+    [1, 2, 2, 3] = ((List.range' 1 3).zip k).flatMap (fun ik => List.replicate ik.2 ik.1) :=
+  multiplicity_spec _ _ _ _ _ exRun
+-- without `end`, and a program outside the specification (a non-boolean pattern)
+example : FilterSpec.run ⟨[.filter 1 (.expr (.bool 1 true)) none]⟩ exPkts = .ok [1, 2, 3] [] false := by
+  decide +kernel
+example : FilterSpec.run ⟨[.filter 1 (.expr (.int 1 7)) none]⟩ exPkts = .unc := by decide +kernel
+
+end Examples
 
 end P2sh.Props.C20
